@@ -834,8 +834,8 @@ func (x *Exec) loopHead(fr *Frame, ld *loopData, st *State) {
 	}
 	// cover: the loop head is reachable under the invariant
 	x.cover(fmt.Sprintf("loop%d/cover", ld.ord), st)
-	for _, g := range x.Top.LoopSplit[ld.ord] {
-		x.applySplit(st, x.evalGen(g, st, x.genArgs(g, x.entryArgs, nil, x.olds, fr, st)).C[0])
+	for k, g := range x.Top.LoopSplit[ld.ord] {
+		x.applySplitC(st, x.evalGen(g, st, x.genArgs(g, x.entryArgs, nil, x.olds, fr, st)).C[0], lc.Splits[k])
 	}
 	if g := x.Top.LoopDec[ld.ord]; g != nil {
 		ld.dec0 = x.evalGen(g, st, x.genArgs(g, x.entryArgs, nil, x.olds, fr, st)).C[0]
@@ -966,8 +966,8 @@ func (x *Exec) verifyFunc() (err error) {
 	}
 	x.cover("requires/cover", st)
 	x.olds = x.snapshotOlds(fi, st, args)
-	for _, g := range fi.Split {
-		x.applySplit(st, x.evalGen(g, st, x.genArgs(g, args, nil, nil, nil, st)).C[0])
+	for k, g := range fi.Split {
+		x.applySplitC(st, x.evalGen(g, st, x.genArgs(g, args, nil, nil, nil, st)).C[0], fi.C.Splits[k])
 	}
 	// modifies regions
 	for _, g := range fi.Mod {
@@ -1141,14 +1141,42 @@ func (x *Exec) learnDistinct(t *Term) {
 	}
 }
 
-// applySplit: execution-level case analysis. In case number x.caseMask the k-th split condition is
-// assumed true (bit set) or false, and becomes a fact the term simplifier uses from here on.
-func (x *Exec) applySplit(st *State, cond *Term) {
+// applySplitC: execution-level case analysis. A split clause has two cases (condition true / false), a
+// cases clause one per value lo..hi plus one for "none of them". x.caseIdx[k] selects the case of the k-th
+// split point in this run; the chosen condition is assumed and becomes a fact for the term simplifier.
+func (x *Exec) applySplitC(st *State, v *Term, cl *Clause) {
 	k := x.nSplits
 	x.nSplits++
-	c := cond
-	if x.caseMask&(1<<k) == 0 {
-		c = Not(cond)
+	arity := 2
+	if cl.Kind == "cases" {
+		arity = cl.Hi - cl.Lo + 2
+	}
+	x.splitArity = append(x.splitArity, arity)
+	idx := 0
+	if k < len(x.caseIdx) {
+		idx = x.caseIdx[k]
+	}
+	var c *Term
+	if cl.Kind == "cases" {
+		if idx < arity-1 {
+			c = Eq(v, BV(int64(cl.Lo+idx), 64))
+			// the cast int(expr) is a zero/sign extension: record the fact on the underlying term too
+			if (v.Op == "zext" || v.Op == "sext") && !c.IsTrue() && !c.IsFalse() {
+				inner := v.Args[0]
+				setFact(Eq(inner, BV(int64(cl.Lo+idx), inner.S.W)))
+			}
+		} else {
+			var ns []*Term
+			for j := cl.Lo; j <= cl.Hi; j++ {
+				ns = append(ns, Not(Eq(v, BV(int64(j), 64))))
+			}
+			c = And(ns...)
+		}
+	} else {
+		c = v
+		if idx == 0 {
+			c = Not(v)
+		}
 	}
 	x.assume(st.G, c)
 	if !c.IsTrue() && !c.IsFalse() {
@@ -1157,7 +1185,7 @@ func (x *Exec) applySplit(st *State, cond *Term) {
 	if c.IsFalse() {
 		st.G = False()
 	}
-	x.caseTag = fmt.Sprintf("[case %0*b]", x.nSplits, x.caseMask&((1<<x.nSplits)-1))
+	x.caseTag += fmt.Sprintf("[%d]", idx)
 }
 
 // symbolicBase: the offset is not (variable + constant); objects at such offsets (slice elements at a
@@ -1233,29 +1261,40 @@ func (x *Exec) callUninterp(st *State, fi *FuncInfo, args []Val, resT types.Type
 	return res
 }
 
-// runInit executes the straight-line part of the package initialiser symbolically, so that package-level
-// variables with constant initialisers (sipVerSP, sigHdrs, the string tables) have their real contents.
-// Variables assigned by the init#k functions (the lookup tables) are left unknown here.
-func (x *Exec) runInit(st *State) {
+
+// runInit executes the straight-line part of the package initialiser symbolically on a scratch state, so that
+// package-level variables with constant initialisers (sipVerSP, sigHdrs, the string tables) have their real
+// contents. The contents are turned into assumptions about the base heap lazily, when a function under
+// proof first refers to the variable. Variables assigned by the init#k functions (the lookup tables) stay unknown.
+func (x *Exec) runInit(_ *State) {
 	init := x.W.SPkg.Func("init")
 	if init == nil || len(init.Blocks) < 2 {
 		return
 	}
+	ist := &State{G: True(), Loc: map[int][]*Term{}, Heap: map[*Sort]*Term{}}
 	x.initMode = true
 	x.spec++
-	defer func() {
-		x.spec--
-		x.initMode = false
-	}()
 	fr := &Frame{fn: init, vals: map[ssa.Value]Val{}, allocs: map[*ssa.Alloc]int{}}
-	for _, in := range init.Blocks[1].Instrs {
-		switch in.(type) {
-		case *ssa.Jump, *ssa.If, *ssa.Return:
-			continue
+	func() {
+		defer func() {
+			x.spec--
+			x.initMode = false
+		}()
+		for _, in := range init.Blocks[1].Instrs {
+			switch in.(type) {
+			case *ssa.Jump, *ssa.If, *ssa.Return:
+				continue
+			}
+			x.instr(fr, ist, in)
 		}
-		x.instr(fr, st, in)
+	}()
+	x.initState = ist
+	x.initAllocT = map[int]types.Type{}
+	for al, id := range fr.allocs {
+		x.initAllocT[id] = al.Type().Underlying().(*types.Pointer).Elem()
 	}
 	// globals written by the table builders: unknown content
+	x.initHavoc = map[*ssa.Global]bool{}
 	for _, m := range x.W.SPkg.Members {
 		f, ok := m.(*ssa.Function)
 		if !ok || !strings.HasPrefix(f.Name(), "init#") {
@@ -1279,21 +1318,81 @@ func (x *Exec) runInit(st *State) {
 					}
 					break
 				}
-				if g, ok := v.(*ssa.Global); ok && !x.initHavoc[g] {
-					if x.initHavoc == nil {
-						x.initHavoc = map[*ssa.Global]bool{}
-					}
+				if g, ok := v.(*ssa.Global); ok {
 					x.initHavoc[g] = true
-					t := g.Type().Underlying().(*types.Pointer).Elem()
-					fc := x.freshCells("G."+g.Name(), t)
-					x.typeInv(st, t, fc)
-					mo, mt := memOffsOf(t), memTagsOf(t)
-					id := x.globalBlk(g)
-					for k, c := range fc {
-						x.storeHeapCell(st, BV(int64(id+mt[k]), 32), BV(int64(mo[k]), 64), c)
-					}
 				}
 			}
 		}
 	}
+}
+
+// assumeInitBlock: the cells of block id (a package-level variable or an object allocated by init) have
+// the values the initialiser stored, in the base heap. Followed transitively through pointers and slices.
+func (x *Exec) assumeInitBlock(id int, t types.Type) {
+	if x.initState == nil || x.initDone[id] {
+		return
+	}
+	if x.initDone == nil {
+		x.initDone = map[int]bool{}
+	}
+	x.initDone[id] = true
+	ss := cellsOf(t)
+	mo, mt := memOffsOf(t), memTagsOf(t)
+	vals := make([]*Term, len(ss))
+	for k, srt := range ss {
+		ih, ok := x.initState.Heap[srt]
+		if !ok {
+			continue
+		}
+		bt := BV(int64(id+mt[k]), 32)
+		off := BV(int64(mo[k]), 64)
+		v := Select(Select(ih, bt), off)
+		if v.Op == "select" {
+			continue // never written by the straight-line initialiser: zero value or unknown
+		}
+		vals[k] = v
+		base := x.baseHeapOf(srt)
+		x.assume(True(), Eq(Select(Select(base, bt), off), v))
+	}
+	// follow pointers into init-allocated blocks
+	var rec func(t types.Type, off int)
+	rec = func(t types.Type, off int) {
+		switch u := t.Underlying().(type) {
+		case *types.Slice, *types.Pointer:
+			b := vals[off]
+			if b != nil && b.Op == "const" {
+				bid := int(b.U64())
+				if et, ok := x.initAllocT[bid]; ok {
+					x.assumeInitBlock(bid, et)
+				}
+			}
+			_ = u
+		case *types.Struct:
+			o := off
+			for i := 0; i < u.NumFields(); i++ {
+				if hasSlice(u.Field(i).Type()) {
+					rec(u.Field(i).Type(), o)
+				}
+				o += sizeOf(u.Field(i).Type())
+			}
+		case *types.Array:
+			if hasSlice(u.Elem()) {
+				es := sizeOf(u.Elem())
+				for i := 0; i < int(u.Len()); i++ {
+					rec(u.Elem(), off+i*es)
+				}
+			}
+		}
+	}
+	if hasSlice(t) {
+		rec(t, 0)
+	}
+}
+
+func (x *Exec) baseHeapOf(s *Sort) *Term {
+	if h, ok := x.baseHeap[s]; ok {
+		return h
+	}
+	tmp := &State{Heap: map[*Sort]*Term{}}
+	return x.heapOf(tmp, s)
 }
